@@ -6,6 +6,7 @@ per edge, symbolic root probabilities, symbolic leaf vectors. How P=exp(Qt) is o
 from __future__ import annotations
 
 import itertools
+from fractions import Fraction
 import time
 import types
 
@@ -50,37 +51,71 @@ def make_leaves(tree, columns, profiles, alphabet):
         seq = [col[ti] for col in columns]
         uniq, counts, index = LT._indexed(seq)
         M = len(profiles[name][uniq[0]])
-        lik = numpy.empty((len(uniq) + 1, M), dtype=object)
+        lik = numpy.empty((len(uniq) + 1, M), dtype=float if W.PLAIN else object)
         for u, pat in enumerate(uniq):
             for y in range(M):
                 lik[u, y] = profiles[name][pat][y]
         for y in range(M):
-            lik[len(uniq), y] = psx.const(1)  # the extra all-gap column
+            lik[len(uniq), y] = 1.0 if W.PLAIN else psx.const(1)  # the extra all-gap column
         uniq = list(uniq) + ["?"]
         counts = numpy.array(list(counts) + [0], float)
         leaves[name] = LT.LikelihoodTreeLeaf(uniq, lik, counts, index, name, alphabet, None)
     return leaves
 
 
+def eval_defn(defn, inputs, memo=None):
+    """a 30-line interpreter for the Defn graph the real code builds: leaves are looked up in `inputs` by name,
+    SelectFromDimension picks inputs[name][category], every CalculationDefn runs its own .calc on the evaluated args.
+    (The real ParameterController / Calculator does the same through cells; its float-typed recycled buffers are
+    replaced by an object-dtype buffer so that z3 terms fit.)"""
+    from cogent3.evolve.likelihood_tree import _LikelihoodTreeEdge
+    from cogent3.recalculation.definition import CalculationDefn
+    from cogent3.recalculation.scope import SelectFromDimension, _LeafDefn
+
+    memo = {} if memo is None else memo
+    if id(defn) in memo:
+        return memo[id(defn)]
+    if isinstance(defn, SelectFromDimension):
+        (cat,) = defn.selection.values()
+        val = inputs[defn.arg.name][cat]
+    elif isinstance(defn, _LeafDefn):
+        val = inputs[defn.name]
+    elif isinstance(defn, CalculationDefn):
+        args = [eval_defn(a, inputs, memo) for a in defn.args]
+        calc = defn.make_calc_function()
+        if defn.recycling and W.PLAIN:
+            val = calc(None, *args)  # float replay: the code allocates its own buffer
+        elif defn.recycling:
+            (lh_edge,) = [a for a in args if isinstance(a, _LikelihoodTreeEdge)]
+            recycled = numpy.empty(lh_edge.shape, dtype=object)
+            for idx in numpy.ndindex(*lh_edge.shape):
+                recycled[idx] = psx.const(1)
+            val = calc(recycled, *args)
+        else:
+            val = calc(*args)
+    else:
+        raise TypeError(f"eval_defn: unexpected Defn {type(defn).__name__}")
+    memo[id(defn)] = val
+    return val
+
+
 def root_partial(tree, leaves, P):
-    """real wiring: recursive_lht_build + (numpy.inner with psub) + PartialLikelihoodProductDefn.calc"""
+    """real wiring: the Defn graph is built by the real make_partial_likelihood_defns (with the real LikelihoodTreeDefn,
+    LeafPartialLikelihoodDefn, LhtEdgeLookupDefn, PartialLikelihoodProductDefnFixedMotif and the numpy.inner CalcDefns)
+    and evaluated by eval_defn on z3 terms; no motif is fixed (fixed_motif = None on every edge)"""
     from cogent3.evolve import likelihood_calculation as LC
+    from cogent3.recalculation.definition import NonParamDefn
 
-    lht = LC.recursive_lht_build(tree, leaves)
-
-    def plh(edge):
-        if edge.istip():
-            return lht.get_edge(edge.name).input_likelihoods
-        lh_edge = lht.get_edge(edge.name)
-        kids = []
-        for child in edge.children:
-            kids.append(numpy.inner(plh(child), P[child.name]))
-        recycled = numpy.empty(lh_edge.shape, dtype=object)
-        for idx in numpy.ndindex(*lh_edge.shape):
-            recycled[idx] = psx.const(1)
-        return LC.PartialLikelihoodProductDefn.calc(None, recycled, lh_edge, *kids)
-
-    return lht, plh(tree)
+    leaves_d = NonParamDefn("leaf_likelihoods")
+    psubs_d = NonParamDefn("psubs", ["edge"])
+    fixed_d = NonParamDefn("fixed_motif", ["edge"])
+    lht_d = LC.LikelihoodTreeDefn(leaves_d, tree=tree)
+    plh_d = LC.make_partial_likelihood_defns(tree, lht_d, psubs_d, fixed_d)
+    names = [n.name for n in tree.traverse(include_self=True)]
+    inputs = {"leaf_likelihoods": leaves, "psubs": P, "fixed_motif": {n: None for n in names}}
+    memo = {}
+    rp = eval_defn(plh_d, inputs, memo)
+    return memo[id(lht_d)], rp
 
 
 def column_lh(lht, root_plh, pi):
@@ -130,14 +165,14 @@ def symbolic_problem(newick, M, npat=2):
 
 def mk_pruning(shape, M, _replay=None):
     t0 = time.time()
-    install_py_kernels()
     newick = SHAPES[shape]
     tree, tips, edges, P, pi, profiles = symbolic_problem(newick, M)
     n = len(tips)
     # alignment: 4 columns, column 0 and 3 identical (exercises the unique-column index), one all-pattern-1 column
     columns = [tuple(0 for _ in tips), tuple((i % 2) for i in range(n)), tuple(1 for _ in tips), tuple(0 for _ in tips)]
     if _replay is not None:
-        return _replay_pruning(newick, M, columns, _replay)
+        return _replay_pruning(newick, M, columns, _replay)  # compiled kernels, floats
+    install_py_kernels()
 
     def run():
         alphabet = None
@@ -213,16 +248,8 @@ def _replay_pruning(newick, M, columns, cex):
         uniq, counts, index = LT._indexed(seq)
         lik = numpy.array([prof[name][p] for p in uniq] + [numpy.ones(M)])
         leaves[name] = LT.LikelihoodTreeLeaf(list(uniq) + ["?"], lik, numpy.array(list(counts) + [0], float), index, name, None, None)
-    lht = LC.recursive_lht_build(tree, leaves)
-
-    def plh(edge):
-        if edge.istip():
-            return lht.get_edge(edge.name).input_likelihoods
-        e = lht.get_edge(edge.name)
-        kids = [numpy.ascontiguousarray(numpy.inner(plh(ch), P[ch.name])) for ch in edge.children]
-        return e.sum_input_likelihoodsR(e.make_partial_likelihoods_array(), *kids)
-
-    lh = numpy.inner(plh(tree), pi)
+    lht, root_plh = root_partial(tree, leaves, P)  # the real Defn graph, compiled kernels, floats
+    lh = numpy.inner(root_plh, pi)
     full = lht.get_full_length_likelihoods(lh)
 
     def down(node, x, col):
@@ -244,14 +271,24 @@ def _replay_pruning(newick, M, columns, cex):
 # ---------------------------------------------------------------- columns sum to one
 def mk_sum_to_one(shape, M, _replay=None):
     t0 = time.time()
-    install_py_kernels()
     newick = SHAPES[shape]
     tree, tips, edges, P, pi, _ = symbolic_problem(newick, M)
     n = len(tips)
-    onehot = {t: {k: [psx.const(1 if y == k else 0) for y in range(M)] for k in range(M)} for t in tips}
     columns = list(itertools.product(range(M), repeat=n))
     if _replay is not None:
-        return {"status": "not_reproduced", "detail": "no float replay for sum-to-one"}
+        # floats through the real Defn graph and the compiled kernels
+        vals = _replay.get("values", {})
+        g = lambda k: float(Fraction(str(vals.get(k, 0))))
+        Pf = {e: numpy.array([[g(f"P_{e}_{i}{j}") for j in range(M)] for i in range(M)]) for e in edges}
+        pif = numpy.array([g(f"pi{i}") for i in range(M)])
+        onehot_f = {t: {k: [1.0 if y == k else 0.0 for y in range(M)] for k in range(M)} for t in tips}
+        leaves = make_leaves(tree, columns, onehot_f, None)
+        lht, rp = root_partial(tree, leaves, Pf)
+        lh = column_lh(lht, rp, pif)
+        tot = float(sum(lh[u] * lht.counts[u] for u in range(len(lh))))
+        return {"status": "reproduced" if abs(tot - 1) > 1e-9 else "not_reproduced", "detail": f"sum over all columns = {tot!r}"}
+    install_py_kernels()
+    onehot = {t: {k: [psx.const(1 if y == k else 0) for y in range(M)] for k in range(M)} for t in tips}
     assumptions = []
     for e in edges:
         for i in range(M):
@@ -449,7 +486,7 @@ ENCODED = [
     ("src/cogent3/evolve/likelihood_tree.py", ["_LikelihoodTreeEdge.__init__", "LikelihoodTreeEdge.sum_input_likelihoodsR", "LikelihoodTreeEdge.get_log_sum_across_sites",
                                                "_LikelihoodTreeEdge.get_full_length_likelihoods", "_indexed", "LikelihoodTreeLeaf.__init__", "make_likelihood_tree_leaf", "get_matched_array"]),
     ("src/cogent3/evolve/likelihood_tree_numba.py", ["sum_input_likelihoods (.py_func)", "inner_product (.py_func)", "get_log_sum_across_sites (.py_func)"]),
-    ("src/cogent3/evolve/likelihood_calculation.py", ["recursive_lht_build", "PartialLikelihoodProductDefn.calc", "BinnedSiteDistribution.get_weighted_sum_lh", "numpy.inner wiring of make_partial_likelihood_defns / make_total_loglikelihood_defn (reproduced in the harness, validated against lf.get_log_likelihood())"]),
+    ("src/cogent3/evolve/likelihood_calculation.py", ["recursive_lht_build", "PartialLikelihoodProductDefn.calc", "BinnedSiteDistribution.get_weighted_sum_lh", "make_partial_likelihood_defns (the real Defn graph, evaluated by props.c02.eval_defn)", "LikelihoodTreeDefn.calc", "LeafPartialLikelihoodDefn.calc", "LhtEdgeLookupDefn.calc", "PartialLikelihoodProductDefnFixedMotif.calc (no fixed motif)", "the final numpy.inner(plh, root_mprobs) of make_total_loglikelihood_defn (reproduced in the harness, validated against lf.get_log_likelihood())"]),
 ]
 BOUNDS = {
     "quick": ["tree shapes: cherry, 3-star, rooted 3, 4-star, balanced 4, ladder 4, internal trifurcation, single-child internal nodes", "states M=2 for all shapes, M=4 for shapes with <= 3 tips; 4 alignment columns with 2 symbolic leaf vectors per tip",
